@@ -249,6 +249,10 @@ def special_designs():
         for label, f in c03.reuse_designs():
             seq = any(k in label for k in ('Reg', 'Stack'))
             add('reuse: ' + label, f, seq)
+        # ... and its naming-stress designs (reserved words, prefixes, nets called like the clock): where the text is legal it must
+        # also behave
+        for label, f in c03.naming_designs():
+            add('naming: ' + label, f, 'clocked' in label)
     except Exception:
         pass
     return out
